@@ -45,7 +45,15 @@ fn setup_output(dir: &Path, kind: &str, input: &Path, variant: usize) -> (Option
 fn setup_output_path(dir: &Path, kind: &str, input: &Path, variant: usize) -> Option<PathBuf> {
     match kind {
         "stdout" => None,
-        "newfile" => Some(dir.join("out.rs")),
+        // a plain name, a name with blanks, a name in a sub-directory reached through `..`
+        "newfile" => Some(match variant % 3 {
+            0 => dir.join("out.rs"),
+            1 => dir.join("my out file.rs"),
+            _ => {
+                std::fs::create_dir_all(dir.join("sub")).unwrap();
+                dir.join("sub").join("..").join("out.rs")
+            }
+        }),
         "existing" => {
             // every third time the existing output file is the input file itself
             if variant % 3 == 2 && input.is_file() {
@@ -53,6 +61,14 @@ fn setup_output_path(dir: &Path, kind: &str, input: &Path, variant: usize) -> Op
             }
             let p = dir.join("out.rs");
             std::fs::write(&p, sentinel()).unwrap();
+            // every fourth time the named path is a symbolic link to the existing file
+            if variant % 4 == 1 {
+                let link = dir.join("link to out.rs");
+                let _ = std::fs::remove_file(&link);
+                if std::os::unix::fs::symlink(&p, &link).is_ok() {
+                    return Some(link);
+                }
+            }
             Some(p)
         }
         "nodir" => Some(dir.join("no_such_dir").join("out.rs")),
